@@ -69,6 +69,8 @@ func Shrink(sc *core.Scenario, fails Failing, budget int) (*core.Scenario, int) 
 			func(c *core.Scenario) bool { if c.Knobs.Source == "direct" || c.Knobs.Source == "" { return false }; c.Knobs.Source = "direct"; return true },
 			func(c *core.Scenario) bool { if c.Knobs.Listeners == 1 { return false }; c.Knobs.Listeners = 1; return true },
 			func(c *core.Scenario) bool { if c.Knobs.SplitAt == 0 { return false }; c.Knobs.SplitAt = 0; return true },
+			func(c *core.Scenario) bool { if c.Knobs.RefetchFrom == nil { return false }; c.Knobs.RefetchFrom = nil; return true },
+			func(c *core.Scenario) bool { if len(c.Calls) == 0 { return false }; c.Calls = nil; return true },
 			func(c *core.Scenario) bool { if !c.Knobs.RetErr { return false }; c.Knobs.RetErr = false; return true },
 			func(c *core.Scenario) bool { if len(c.Removed) == 0 { return false }; c.Removed = nil; return true },
 			func(c *core.Scenario) bool { if len(c.Schedule) == 0 { return false }; c.Schedule = nil; return true },
